@@ -21,6 +21,7 @@ pub const RULE: &str = "Scenario g is drawn from seed mix(VERIF_SEED, g): a logi
 pub const ASSUMPTIONS: &[&str] = &[
     "the flat side of the comparison is assembled by the same tree's build_str: C11 is a relational property, defects of the pure core cancel and are not this check's business",
     "not generated because the statement leaves them undefined: conditionals or macro definitions spanning a file boundary, a same-named directory shadowing a file, two files of the same name in different search directories, an .includepath of a child relied on by its parent after return, includes inside macro bodies",
+    "when an included file is a symbolic link, 'the directory of the including file' is the directory it was found in (the link's), not the directory its bytes live in",
     "messages are compared by their (unique) texts in order always, and with line numbers mapped to the including file's numbering when they have the form '<kind>: <text> in line: <n>'; error texts are not compared (both sides must fail)",
     "under faults: Err is acceptable, a panic is counted but not judged here, Ok implies equality with the fault-free result; short reads and read caps must not change the result; a missing file that the fault-free build opens must fail the build with an error naming the include as written",
     "tree and flat side run under the same simulated hash seed (hash-order dependence is C17's matter)",
@@ -52,6 +53,11 @@ pub struct Scenario {
     pub then_write: BTreeMap<String, String>,
     #[serde(default)]
     pub then_remove: Vec<String>,
+    /// files of the tree that are symbolic links on the disk: link path (a key of `files`) ->
+    /// scratch-relative path where the bytes really live (a directory that is searched by nobody).
+    /// "The directory of the including file" is read as the directory the file was found in.
+    #[serde(default)]
+    pub symlinks: BTreeMap<String, String>,
     pub intent: String,
     pub config: String,
 }
@@ -563,6 +569,19 @@ pub fn scenario_with(seed: u64, g: u64, layout: &Layout) -> Scenario {
     if tg.r.chance(1, 5) {
         paths.push("$R/no such dir".to_string());
     }
+    // now and then an included file that includes something itself is a symbolic link to a file
+    // in a directory nobody searches (only for a tree that lives alone on its disk)
+    let mut symlinks: BTreeMap<String, String> = BTreeMap::new();
+    if layout.cwd.is_none() && tg.r.chance(1, 6) {
+        let cands: Vec<String> = files.iter().filter(|(k, t)| **k != main_file && t.lines().any(|l| parse_include(l).is_some())).map(|(k, _)| k.clone()).collect();
+        let all: Vec<String> = files.keys().filter(|k| **k != main_file).cloned().collect();
+        let pool = if !cands.is_empty() { cands } else { all };
+        if !pool.is_empty() {
+            let k = pool[tg.r.usize(pool.len())].clone();
+            let n = symlinks.len();
+            symlinks.insert(k.clone(), format!("linked/store{}/{}", n, basename(&k)));
+        }
+    }
     let cfgs = ["free", "twice", "missing", "enum", "enum", "enum", "pair", "cap", "nonutf8", "enum", "twice"];
     let config = cfgs[tg.r.usize(cfgs.len())].to_string();
     Scenario {
@@ -580,6 +599,7 @@ pub fn scenario_with(seed: u64, g: u64, layout: &Layout) -> Scenario {
         hash_seed: seed,
         then_write: BTreeMap::new(),
         then_remove: vec![],
+        symlinks,
         intent: prog.intent,
         config,
     }
@@ -624,7 +644,17 @@ impl Disk {
                     bytes[o] = 0xFF;
                 }
             }
-            std::fs::write(&fp, bytes).map_err(|e| format!("write {}: {}", p, e))?;
+            match sc.symlinks.get(p) {
+                Some(target) => {
+                    let tp = self.root.join(target);
+                    if let Some(d) = tp.parent() {
+                        std::fs::create_dir_all(d).map_err(|e| e.to_string())?;
+                    }
+                    std::fs::write(&tp, bytes).map_err(|e| format!("write {}: {}", target, e))?;
+                    std::os::unix::fs::symlink(&tp, &fp).map_err(|e| format!("symlink {}: {}", p, e))?;
+                }
+                None => std::fs::write(&fp, bytes).map_err(|e| format!("write {}: {}", p, e))?,
+            }
         }
         // caller directories exist even when empty
         for d in &sc.paths {
@@ -1264,6 +1294,7 @@ pub fn worker(cfg: &WorkerCfg, emit: &mut dyn FnMut(Violation)) -> Stats {
         cx.stats.probe("included_file_with_crlf_line_ends", opened.iter().any(|e| sc.files.get(&e.1).map(|t| t.contains("\r\n")).unwrap_or(false)));
         cx.stats.probe("included_file_without_final_newline", opened.iter().any(|e| sc.files.get(&e.1).map(|t| !t.is_empty() && !t.ends_with('\n')).unwrap_or(false)));
         cx.stats.probe("empty_included_file", opened.iter().any(|e| sc.files.get(&e.1).map(|t| t.trim().is_empty()).unwrap_or(false)));
+        cx.stats.probe("included_file_is_a_symbolic_link_and_includes_a_sibling", opened.iter().any(|e| sc.symlinks.contains_key(&e.1) && sc.files.get(&e.1).map(|t| t.lines().any(|l| parse_include(l).is_some())).unwrap_or(false)));
         cx.stats.probe("cwd_deep_below_the_root", sc.cwd.contains('/'));
         cx.stats.probe("cwd_is_the_main_files_directory", incmodel::dirname(&sc.main_file) == sc.cwd);
         cx.stats.probe("include_inside_a_conditional_branch", {
@@ -1578,6 +1609,11 @@ pub fn shrink(scv: &Value) -> Vec<Value> {
         let mut s = sc.clone();
         s.then_write.clear();
         s.then_remove.clear();
+        push(s);
+    }
+    for k in sc.symlinks.keys() {
+        let mut s = sc.clone();
+        s.symlinks.remove(k);
         push(s);
     }
     // files that nothing includes (any more)
